@@ -1,4 +1,6 @@
 (* C15 - hand model of the meta state machine beyond the C16 catalogue core: executable definitions only.
+   (round 5: partition versions, data / sql / meta node status, shard and index tiers, streams and their veto on the Mark
+   commands, RemoveNode housekeeping; ExpandGroups = C16.Expand.expand_groups in the correspondence.)
    State = persistent part (what Data.Marshal writes: the C16 catalogue core, users and privileges, subscriptions,
    continuous queries, meta and sql nodes, per-node applied indexes, switches, id counters, term/index) + transient part
    (fields of meta.Data that are NOT marshalled: ExpandShardsEnable, AdminUserExists, UpdateNodeTmpIndexCommandStart).
@@ -21,8 +23,11 @@ Record user := { u_name : Z; u_hash : Z; u_admin : bool; u_rw : bool; u_privs : 
 Record sub := { sb_name : Z; sb_mode : Z; sb_dest : Z }.
 (* cq_last: None = the zero time.Time (never ran), Some n = time.Unix(0, n) *)
 Record cq := { cq_db : Z; cq_name : Z; cq_query : Z; cq_last : option Z }.
-Record mnode := { mn_id : Z; mn_http : Z; mn_tcp : Z }.
-Record sqlnode := { sq_id : Z; sq_host : Z; sq_conn : Z; sq_index : Z }.
+Record mnode := { mn_id : Z; mn_http : Z; mn_tcp : Z; mn_status : Z; mn_ltime : Z }.
+Record sqlnode := { sq_id : Z; sq_host : Z; sq_conn : Z; sq_index : Z; sq_status : Z; sq_ltime : Z; sq_alive : Z }.
+(* NodeInfo.Status / LTime / GossipAddr (0 = empty) and DataNode.AliveConnID of a data node *)
+Record nstat := { ns_status : Z; ns_ltime : Z; ns_alive : Z; ns_gossip : Z }.
+Record stream := { st_name : Z; st_id : Z; st_src : Z * Z * Z; st_dst : Z * Z * Z; st_interval : Z }.
 
 (* what Data.Marshal / Unmarshal carry *)
 Record pstate := {
@@ -36,6 +41,11 @@ Record pstate := {
   cluster_id : Z;
   sqls : list sqlnode;                 (* Data.SqlNodes, slice order *)
   dn_index : list (Z * Z);             (* DataNode.Index by the data node's TCP address (0 when absent) *)
+  dn_stat : list (Z * nstat);          (* status, logical time, alive connection id, gossip address by the data node's TCP address *)
+  sh_tier : list (Z * Z);              (* ShardInfo.Tier by shard id, when it differs from the tier the group was created with *)
+  ix_tier : list (Z * Z);              (* IndexInfo.Tier by index id (0 when absent) *)
+  streams : list stream;               (* Data.Streams *)
+  max_stream : Z;                      (* MaxStreamID *)
   takeover : bool; balancer : bool;
   qids : list (Z * Z);                 (* QueryIDInit: sql host -> offset *)
   p_term : Z; p_index : Z              (* Data.Term / Data.Index: position of the last applied log entry *)
@@ -49,35 +59,45 @@ Record tstate := {
 Record xstate := { pp : pstate; tt : tstate }.
 
 Definition set_core (p : pstate) (v : cat) : pstate :=
-  {| core := v; users := users p; subs := subs p; max_sub := max_sub p; cqs := cqs p; max_cqchg := max_cqchg p; metas := metas p; cluster_id := cluster_id p; sqls := sqls p; dn_index := dn_index p; takeover := takeover p; balancer := balancer p; qids := qids p; p_term := p_term p; p_index := p_index p |}.
+  {| core := v; users := users p; subs := subs p; max_sub := max_sub p; cqs := cqs p; max_cqchg := max_cqchg p; metas := metas p; cluster_id := cluster_id p; sqls := sqls p; dn_index := dn_index p; dn_stat := dn_stat p; sh_tier := sh_tier p; ix_tier := ix_tier p; streams := streams p; max_stream := max_stream p; takeover := takeover p; balancer := balancer p; qids := qids p; p_term := p_term p; p_index := p_index p |}.
 Definition set_users (p : pstate) (v : list user) : pstate :=
-  {| core := core p; users := v; subs := subs p; max_sub := max_sub p; cqs := cqs p; max_cqchg := max_cqchg p; metas := metas p; cluster_id := cluster_id p; sqls := sqls p; dn_index := dn_index p; takeover := takeover p; balancer := balancer p; qids := qids p; p_term := p_term p; p_index := p_index p |}.
+  {| core := core p; users := v; subs := subs p; max_sub := max_sub p; cqs := cqs p; max_cqchg := max_cqchg p; metas := metas p; cluster_id := cluster_id p; sqls := sqls p; dn_index := dn_index p; dn_stat := dn_stat p; sh_tier := sh_tier p; ix_tier := ix_tier p; streams := streams p; max_stream := max_stream p; takeover := takeover p; balancer := balancer p; qids := qids p; p_term := p_term p; p_index := p_index p |}.
 Definition set_subs (p : pstate) (v : list (Z * Z * list sub)) : pstate :=
-  {| core := core p; users := users p; subs := v; max_sub := max_sub p; cqs := cqs p; max_cqchg := max_cqchg p; metas := metas p; cluster_id := cluster_id p; sqls := sqls p; dn_index := dn_index p; takeover := takeover p; balancer := balancer p; qids := qids p; p_term := p_term p; p_index := p_index p |}.
+  {| core := core p; users := users p; subs := v; max_sub := max_sub p; cqs := cqs p; max_cqchg := max_cqchg p; metas := metas p; cluster_id := cluster_id p; sqls := sqls p; dn_index := dn_index p; dn_stat := dn_stat p; sh_tier := sh_tier p; ix_tier := ix_tier p; streams := streams p; max_stream := max_stream p; takeover := takeover p; balancer := balancer p; qids := qids p; p_term := p_term p; p_index := p_index p |}.
 Definition set_max_sub (p : pstate) (v : Z) : pstate :=
-  {| core := core p; users := users p; subs := subs p; max_sub := v; cqs := cqs p; max_cqchg := max_cqchg p; metas := metas p; cluster_id := cluster_id p; sqls := sqls p; dn_index := dn_index p; takeover := takeover p; balancer := balancer p; qids := qids p; p_term := p_term p; p_index := p_index p |}.
+  {| core := core p; users := users p; subs := subs p; max_sub := v; cqs := cqs p; max_cqchg := max_cqchg p; metas := metas p; cluster_id := cluster_id p; sqls := sqls p; dn_index := dn_index p; dn_stat := dn_stat p; sh_tier := sh_tier p; ix_tier := ix_tier p; streams := streams p; max_stream := max_stream p; takeover := takeover p; balancer := balancer p; qids := qids p; p_term := p_term p; p_index := p_index p |}.
 Definition set_cqs (p : pstate) (v : list cq) : pstate :=
-  {| core := core p; users := users p; subs := subs p; max_sub := max_sub p; cqs := v; max_cqchg := max_cqchg p; metas := metas p; cluster_id := cluster_id p; sqls := sqls p; dn_index := dn_index p; takeover := takeover p; balancer := balancer p; qids := qids p; p_term := p_term p; p_index := p_index p |}.
+  {| core := core p; users := users p; subs := subs p; max_sub := max_sub p; cqs := v; max_cqchg := max_cqchg p; metas := metas p; cluster_id := cluster_id p; sqls := sqls p; dn_index := dn_index p; dn_stat := dn_stat p; sh_tier := sh_tier p; ix_tier := ix_tier p; streams := streams p; max_stream := max_stream p; takeover := takeover p; balancer := balancer p; qids := qids p; p_term := p_term p; p_index := p_index p |}.
 Definition set_max_cqchg (p : pstate) (v : Z) : pstate :=
-  {| core := core p; users := users p; subs := subs p; max_sub := max_sub p; cqs := cqs p; max_cqchg := v; metas := metas p; cluster_id := cluster_id p; sqls := sqls p; dn_index := dn_index p; takeover := takeover p; balancer := balancer p; qids := qids p; p_term := p_term p; p_index := p_index p |}.
+  {| core := core p; users := users p; subs := subs p; max_sub := max_sub p; cqs := cqs p; max_cqchg := v; metas := metas p; cluster_id := cluster_id p; sqls := sqls p; dn_index := dn_index p; dn_stat := dn_stat p; sh_tier := sh_tier p; ix_tier := ix_tier p; streams := streams p; max_stream := max_stream p; takeover := takeover p; balancer := balancer p; qids := qids p; p_term := p_term p; p_index := p_index p |}.
 Definition set_metas (p : pstate) (v : list mnode) : pstate :=
-  {| core := core p; users := users p; subs := subs p; max_sub := max_sub p; cqs := cqs p; max_cqchg := max_cqchg p; metas := v; cluster_id := cluster_id p; sqls := sqls p; dn_index := dn_index p; takeover := takeover p; balancer := balancer p; qids := qids p; p_term := p_term p; p_index := p_index p |}.
+  {| core := core p; users := users p; subs := subs p; max_sub := max_sub p; cqs := cqs p; max_cqchg := max_cqchg p; metas := v; cluster_id := cluster_id p; sqls := sqls p; dn_index := dn_index p; dn_stat := dn_stat p; sh_tier := sh_tier p; ix_tier := ix_tier p; streams := streams p; max_stream := max_stream p; takeover := takeover p; balancer := balancer p; qids := qids p; p_term := p_term p; p_index := p_index p |}.
 Definition set_cluster_id (p : pstate) (v : Z) : pstate :=
-  {| core := core p; users := users p; subs := subs p; max_sub := max_sub p; cqs := cqs p; max_cqchg := max_cqchg p; metas := metas p; cluster_id := v; sqls := sqls p; dn_index := dn_index p; takeover := takeover p; balancer := balancer p; qids := qids p; p_term := p_term p; p_index := p_index p |}.
+  {| core := core p; users := users p; subs := subs p; max_sub := max_sub p; cqs := cqs p; max_cqchg := max_cqchg p; metas := metas p; cluster_id := v; sqls := sqls p; dn_index := dn_index p; dn_stat := dn_stat p; sh_tier := sh_tier p; ix_tier := ix_tier p; streams := streams p; max_stream := max_stream p; takeover := takeover p; balancer := balancer p; qids := qids p; p_term := p_term p; p_index := p_index p |}.
 Definition set_sqls (p : pstate) (v : list sqlnode) : pstate :=
-  {| core := core p; users := users p; subs := subs p; max_sub := max_sub p; cqs := cqs p; max_cqchg := max_cqchg p; metas := metas p; cluster_id := cluster_id p; sqls := v; dn_index := dn_index p; takeover := takeover p; balancer := balancer p; qids := qids p; p_term := p_term p; p_index := p_index p |}.
+  {| core := core p; users := users p; subs := subs p; max_sub := max_sub p; cqs := cqs p; max_cqchg := max_cqchg p; metas := metas p; cluster_id := cluster_id p; sqls := v; dn_index := dn_index p; dn_stat := dn_stat p; sh_tier := sh_tier p; ix_tier := ix_tier p; streams := streams p; max_stream := max_stream p; takeover := takeover p; balancer := balancer p; qids := qids p; p_term := p_term p; p_index := p_index p |}.
 Definition set_dn_index_tbl (p : pstate) (v : list (Z * Z)) : pstate :=
-  {| core := core p; users := users p; subs := subs p; max_sub := max_sub p; cqs := cqs p; max_cqchg := max_cqchg p; metas := metas p; cluster_id := cluster_id p; sqls := sqls p; dn_index := v; takeover := takeover p; balancer := balancer p; qids := qids p; p_term := p_term p; p_index := p_index p |}.
+  {| core := core p; users := users p; subs := subs p; max_sub := max_sub p; cqs := cqs p; max_cqchg := max_cqchg p; metas := metas p; cluster_id := cluster_id p; sqls := sqls p; dn_index := v; dn_stat := dn_stat p; sh_tier := sh_tier p; ix_tier := ix_tier p; streams := streams p; max_stream := max_stream p; takeover := takeover p; balancer := balancer p; qids := qids p; p_term := p_term p; p_index := p_index p |}.
+Definition set_dn_stat (p : pstate) (v : list (Z * nstat)) : pstate :=
+  {| core := core p; users := users p; subs := subs p; max_sub := max_sub p; cqs := cqs p; max_cqchg := max_cqchg p; metas := metas p; cluster_id := cluster_id p; sqls := sqls p; dn_index := dn_index p; dn_stat := v; sh_tier := sh_tier p; ix_tier := ix_tier p; streams := streams p; max_stream := max_stream p; takeover := takeover p; balancer := balancer p; qids := qids p; p_term := p_term p; p_index := p_index p |}.
+Definition set_sh_tier (p : pstate) (v : list (Z * Z)) : pstate :=
+  {| core := core p; users := users p; subs := subs p; max_sub := max_sub p; cqs := cqs p; max_cqchg := max_cqchg p; metas := metas p; cluster_id := cluster_id p; sqls := sqls p; dn_index := dn_index p; dn_stat := dn_stat p; sh_tier := v; ix_tier := ix_tier p; streams := streams p; max_stream := max_stream p; takeover := takeover p; balancer := balancer p; qids := qids p; p_term := p_term p; p_index := p_index p |}.
+Definition set_ix_tier (p : pstate) (v : list (Z * Z)) : pstate :=
+  {| core := core p; users := users p; subs := subs p; max_sub := max_sub p; cqs := cqs p; max_cqchg := max_cqchg p; metas := metas p; cluster_id := cluster_id p; sqls := sqls p; dn_index := dn_index p; dn_stat := dn_stat p; sh_tier := sh_tier p; ix_tier := v; streams := streams p; max_stream := max_stream p; takeover := takeover p; balancer := balancer p; qids := qids p; p_term := p_term p; p_index := p_index p |}.
+Definition set_streams (p : pstate) (v : list stream) : pstate :=
+  {| core := core p; users := users p; subs := subs p; max_sub := max_sub p; cqs := cqs p; max_cqchg := max_cqchg p; metas := metas p; cluster_id := cluster_id p; sqls := sqls p; dn_index := dn_index p; dn_stat := dn_stat p; sh_tier := sh_tier p; ix_tier := ix_tier p; streams := v; max_stream := max_stream p; takeover := takeover p; balancer := balancer p; qids := qids p; p_term := p_term p; p_index := p_index p |}.
+Definition set_max_stream (p : pstate) (v : Z) : pstate :=
+  {| core := core p; users := users p; subs := subs p; max_sub := max_sub p; cqs := cqs p; max_cqchg := max_cqchg p; metas := metas p; cluster_id := cluster_id p; sqls := sqls p; dn_index := dn_index p; dn_stat := dn_stat p; sh_tier := sh_tier p; ix_tier := ix_tier p; streams := streams p; max_stream := v; takeover := takeover p; balancer := balancer p; qids := qids p; p_term := p_term p; p_index := p_index p |}.
 Definition set_takeover (p : pstate) (v : bool) : pstate :=
-  {| core := core p; users := users p; subs := subs p; max_sub := max_sub p; cqs := cqs p; max_cqchg := max_cqchg p; metas := metas p; cluster_id := cluster_id p; sqls := sqls p; dn_index := dn_index p; takeover := v; balancer := balancer p; qids := qids p; p_term := p_term p; p_index := p_index p |}.
+  {| core := core p; users := users p; subs := subs p; max_sub := max_sub p; cqs := cqs p; max_cqchg := max_cqchg p; metas := metas p; cluster_id := cluster_id p; sqls := sqls p; dn_index := dn_index p; dn_stat := dn_stat p; sh_tier := sh_tier p; ix_tier := ix_tier p; streams := streams p; max_stream := max_stream p; takeover := v; balancer := balancer p; qids := qids p; p_term := p_term p; p_index := p_index p |}.
 Definition set_balancer (p : pstate) (v : bool) : pstate :=
-  {| core := core p; users := users p; subs := subs p; max_sub := max_sub p; cqs := cqs p; max_cqchg := max_cqchg p; metas := metas p; cluster_id := cluster_id p; sqls := sqls p; dn_index := dn_index p; takeover := takeover p; balancer := v; qids := qids p; p_term := p_term p; p_index := p_index p |}.
+  {| core := core p; users := users p; subs := subs p; max_sub := max_sub p; cqs := cqs p; max_cqchg := max_cqchg p; metas := metas p; cluster_id := cluster_id p; sqls := sqls p; dn_index := dn_index p; dn_stat := dn_stat p; sh_tier := sh_tier p; ix_tier := ix_tier p; streams := streams p; max_stream := max_stream p; takeover := takeover p; balancer := v; qids := qids p; p_term := p_term p; p_index := p_index p |}.
 Definition set_qids (p : pstate) (v : list (Z * Z)) : pstate :=
-  {| core := core p; users := users p; subs := subs p; max_sub := max_sub p; cqs := cqs p; max_cqchg := max_cqchg p; metas := metas p; cluster_id := cluster_id p; sqls := sqls p; dn_index := dn_index p; takeover := takeover p; balancer := balancer p; qids := v; p_term := p_term p; p_index := p_index p |}.
+  {| core := core p; users := users p; subs := subs p; max_sub := max_sub p; cqs := cqs p; max_cqchg := max_cqchg p; metas := metas p; cluster_id := cluster_id p; sqls := sqls p; dn_index := dn_index p; dn_stat := dn_stat p; sh_tier := sh_tier p; ix_tier := ix_tier p; streams := streams p; max_stream := max_stream p; takeover := takeover p; balancer := balancer p; qids := v; p_term := p_term p; p_index := p_index p |}.
 Definition set_p_term (p : pstate) (v : Z) : pstate :=
-  {| core := core p; users := users p; subs := subs p; max_sub := max_sub p; cqs := cqs p; max_cqchg := max_cqchg p; metas := metas p; cluster_id := cluster_id p; sqls := sqls p; dn_index := dn_index p; takeover := takeover p; balancer := balancer p; qids := qids p; p_term := v; p_index := p_index p |}.
+  {| core := core p; users := users p; subs := subs p; max_sub := max_sub p; cqs := cqs p; max_cqchg := max_cqchg p; metas := metas p; cluster_id := cluster_id p; sqls := sqls p; dn_index := dn_index p; dn_stat := dn_stat p; sh_tier := sh_tier p; ix_tier := ix_tier p; streams := streams p; max_stream := max_stream p; takeover := takeover p; balancer := balancer p; qids := qids p; p_term := v; p_index := p_index p |}.
 Definition set_p_index (p : pstate) (v : Z) : pstate :=
-  {| core := core p; users := users p; subs := subs p; max_sub := max_sub p; cqs := cqs p; max_cqchg := max_cqchg p; metas := metas p; cluster_id := cluster_id p; sqls := sqls p; dn_index := dn_index p; takeover := takeover p; balancer := balancer p; qids := qids p; p_term := p_term p; p_index := v |}.
+  {| core := core p; users := users p; subs := subs p; max_sub := max_sub p; cqs := cqs p; max_cqchg := max_cqchg p; metas := metas p; cluster_id := cluster_id p; sqls := sqls p; dn_index := dn_index p; dn_stat := dn_stat p; sh_tier := sh_tier p; ix_tier := ix_tier p; streams := streams p; max_stream := max_stream p; takeover := takeover p; balancer := balancer p; qids := qids p; p_term := p_term p; p_index := v |}.
 Definition set_t_expand (t : tstate) (v : bool) : tstate :=
   {| t_expand := v; t_admin := t_admin t; t_tmpstart := t_tmpstart t |}.
 Definition set_t_admin (t : tstate) (v : bool) : tstate :=
@@ -93,11 +113,13 @@ Definition v_current : variant := {| v_cqfix := false; v_idxfix := false; v_dsub
 Definition v_repaired : variant := {| v_cqfix := true; v_idxfix := true; v_dsubfix := true; v_rewrite := true |}.
 
 (* the node's configuration: expand-shards-enable, and what Data.ExpandGroups does to the catalogue (not modelled: abstract) *)
-Record config := { cfg_expand : bool; cfg_expandf : cat -> cat }.
+(* cfg_sgtier: the tier every CreateShardGroup command of the log carries (the command's ShardTier field is not an argument
+   of the C16 command) *)
+Record config := { cfg_expand : bool; cfg_expandf : cat -> cat; cfg_sgtier : Z }.
 
 Definition init_p (c : cat) : pstate :=
   {| core := c; users := []; subs := []; max_sub := 0; cqs := []; max_cqchg := 0; metas := []; cluster_id := 0; sqls := [];
-     dn_index := []; takeover := false; balancer := false; qids := []; p_term := 0; p_index := 0 |}.
+     dn_index := []; dn_stat := []; sh_tier := []; ix_tier := []; streams := []; max_stream := 0; takeover := false; balancer := false; qids := []; p_term := 0; p_index := 0 |}.
 Definition init_t : tstate := {| t_expand := false; t_admin := false; t_tmpstart := 0 |}.
 Definition init_x (c : cat) : xstate := {| pp := init_p c; tt := init_t |}.
 
@@ -123,7 +145,15 @@ Inductive xcmd :=
 | MarkBalancer (b : bool)
 | VerifyNode
 | RegisterQid (host : Z)
-| ExpandGroups.
+| ExpandGroups
+| UpdatePtVersion (db pt : Z)
+| NodeStatus (id status ltime port : Z)            (* UpdateNodeStatusCommand (data nodes) *)
+| SqlStatus (id status ltime : Z)
+| MetaStatus (id status ltime : Z)
+| ShardTier (db rp id tier : Z)
+| IndexTier (db rp id tier : Z)
+| CreateStream (name db rp src dst interval : Z)    (* source and destination measurement in one database and policy *)
+| DropStream (name : Z).
 
 Definition xok (s : xstate) : xstate * bool := (s, true).
 Definition xerr (s : xstate) : xstate * bool := (s, false).
@@ -284,10 +314,10 @@ Definition create_meta (p : pstate) (http tcp : Z) : pstate :=
   if existsb (fun m => mn_http m =? http) (metas p) then p else
   let c := core p in
   match find (fun n => nd_tcp n =? tcp) (nodes c) with
-  | Some n => set_metas p (insert_meta {| mn_id := nd_id n; mn_http := http; mn_tcp := tcp |} (metas p))
+  | Some n => set_metas p (insert_meta {| mn_id := nd_id n; mn_http := http; mn_tcp := tcp; mn_status := 0; mn_ltime := 0 |} (metas p))
   | None =>
       let id := max_node c + 1 in
-      set_metas (set_core p (set_counters c id (max_conn c))) (insert_meta {| mn_id := id; mn_http := http; mn_tcp := tcp |} (metas p))
+      set_metas (set_core p (set_counters c id (max_conn c))) (insert_meta {| mn_id := id; mn_http := http; mn_tcp := tcp; mn_status := 0; mn_ltime := 0 |} (metas p))
   end.
 
 Definition x_create_meta (s : xstate) (http tcp rand : Z) : xstate * bool :=
@@ -298,7 +328,7 @@ Definition x_set_meta (s : xstate) (http tcp rand : Z) : xstate * bool :=
   match metas p with
   | _ :: _ :: _ => xerr s
   | [] => let p1 := create_meta p http tcp in xok (withp s (if cluster_id p1 =? 0 then set_cluster_id p1 rand else p1))
-  | [m] => let p1 := set_metas p [{| mn_id := mn_id m; mn_http := http; mn_tcp := tcp |}] in
+  | [m] => let p1 := set_metas p [{| mn_id := mn_id m; mn_http := http; mn_tcp := tcp; mn_status := mn_status m; mn_ltime := mn_ltime m |}] in
            xok (withp s (if cluster_id p1 =? 0 then set_cluster_id p1 rand else p1))
   end.
 
@@ -313,7 +343,8 @@ Definition rewrite_expand (v : variant) (cfg : config) (s : xstate) : xstate :=
   if v_rewrite v then witht s (set_t_expand (tt s) (cfg_expand cfg)) else s.
 
 (* storeFSM.applyCreateSqlNodeCommand + Data.CreateSqlNode *)
-Definition sq_set_conn (v : Z) (x : sqlnode) : sqlnode := {| sq_id := sq_id x; sq_host := sq_host x; sq_conn := v; sq_index := sq_index x |}.
+Definition sq_set_conn (v : Z) (x : sqlnode) : sqlnode :=
+  {| sq_id := sq_id x; sq_host := sq_host x; sq_conn := v; sq_index := sq_index x; sq_status := sq_status x; sq_ltime := sq_ltime x; sq_alive := sq_alive x |}.
 Definition x_create_sql (v : variant) (cfg : config) (s : xstate) (host : Z) : xstate * bool :=
   let p := pp s in
   let c := core p in
@@ -324,10 +355,10 @@ Definition x_create_sql (v : variant) (cfg : config) (s : xstate) (host : Z) : x
     let s1 := rewrite_expand v cfg s in
     match find (fun m => mn_tcp m =? host) (metas p) with
     | Some m => xok (withp s1 (set_sqls (set_core p (set_counters c (max_node c) mc))
-                                        (sqls p ++ [{| sq_id := mn_id m; sq_host := host; sq_conn := mc; sq_index := 0 |}])))
+                                        (sqls p ++ [{| sq_id := mn_id m; sq_host := host; sq_conn := mc; sq_index := 0; sq_status := 0; sq_ltime := 0; sq_alive := 0 |}])))
     | None => let id := max_node c + 1 in
               xok (withp s1 (set_sqls (set_core p (set_counters c id mc))
-                                      (sqls p ++ [{| sq_id := id; sq_host := host; sq_conn := mc; sq_index := 0 |}])))
+                                      (sqls p ++ [{| sq_id := id; sq_host := host; sq_conn := mc; sq_index := 0; sq_status := 0; sq_ltime := 0; sq_alive := 0 |}])))
     end.
 
 (* storeFSM.applyCreateDataNodeCommand + ApplyCreateDataNode + Data.CreateDataNode (writer nodes) *)
@@ -353,7 +384,8 @@ Definition x_create_dnode (v : variant) (cfg : config) (s : xstate) (h t : Z) : 
     xok (withp s1 (set_core p (if t_expand (tt s1) then cfg_expandf cfg c1 else c1))).
 
 (* ---- Data.UpdateNodeTmpIndex (SetSqlNodeIndex / SetDataNodeIndex: only a strictly larger index is accepted) ---- *)
-Definition sq_set_index (v : Z) (x : sqlnode) : sqlnode := {| sq_id := sq_id x; sq_host := sq_host x; sq_conn := sq_conn x; sq_index := v |}.
+Definition sq_set_index (v : Z) (x : sqlnode) : sqlnode :=
+  {| sq_id := sq_id x; sq_host := sq_host x; sq_conn := sq_conn x; sq_index := v; sq_status := sq_status x; sq_ltime := sq_ltime x; sq_alive := sq_alive x |}.
 Fixpoint set_sql_index (l : list sqlnode) (id idx : Z) : option (list sqlnode) :=
   match l with
   | [] => None
@@ -386,6 +418,120 @@ Definition x_tmp_index (s : xstate) (role idx node : Z) : xstate * bool :=
     match set_dn_index (nodes (core p)) (dn_index p) node idx with Some l => xok (withp s (set_dn_index_tbl p l)) | None => xerr s end
   else xerr s.
 
+
+(* ---- partition versions, node status (Data.UpdatePtVersion / UpdateNodeStatus / UpdateSqlNodeStatus / UpdateMetaNodeStatus) ---- *)
+Definition pt_bump (x : ptinfo) : ptinfo := {| pt_owner := pt_owner x; pt_status := pt_status x; pt_ver := pt_ver x + 1 |}.
+Definition x_pt_version (s : xstate) (db pt : Z) : xstate * bool :=
+  let p := pp s in
+  let c := core p in
+  match find (fun e => fst e =? db) (ptview c) with
+  | None => xerr s
+  | Some e =>
+      if (pt <? 0) || (pt >=? Z.of_nat (length (snd e))) then xerr s else
+      xok (withp s (set_core p (set_ptview c (upd_first (fun e => fst e =? db) (fun e => (fst e, upd_nth (Z.to_nat pt) pt_bump (snd e))) (ptview c)))))
+  end.
+
+Definition ALIVE : Z := 1.    (* serf.StatusAlive *)
+Definition stat0 : nstat := {| ns_status := 0; ns_ltime := 0; ns_alive := 0; ns_gossip := 0 |}.
+Fixpoint stat_of (tbl : list (Z * nstat)) (k : Z) : nstat :=
+  match tbl with [] => stat0 | (a, b) :: r => if a =? k then b else stat_of r k end.
+Fixpoint stat_set (k : Z) (v : nstat) (tbl : list (Z * nstat)) : list (Z * nstat) :=
+  match tbl with [] => [(k, v)] | (a, b) :: r => if a =? k then (k, v) :: r else (a, b) :: stat_set k v r end.
+
+(* updatePtViewStatus(id, Offline): every partition owned by the node goes offline and gets a new version *)
+Definition pt_offline (id : Z) (x : ptinfo) : ptinfo :=
+  if pt_owner x =? id then {| pt_owner := pt_owner x; pt_status := OFFLINE; pt_ver := pt_ver x + 1 |} else x.
+
+(* write-available-first ha policy (the split-brain refusal of shared-storage is not modelled) *)
+Definition x_node_status (s : xstate) (id status ltime port : Z) : xstate * bool :=
+  let p := pp s in
+  let c := core p in
+  if negb (takeover p) then xok s else           (* "do not take over" *)
+  match find (fun n => nd_id n =? id) (nodes c) with
+  | None => xerr s
+  | Some n =>
+      let st := stat_of (dn_stat p) (nd_tcp n) in
+      if ltime <? ns_ltime st then xerr s else
+      let st' := {| ns_status := status; ns_ltime := ltime; ns_alive := if status =? ALIVE then nd_conn n else ns_alive st;
+                    ns_gossip := if ns_gossip st =? 0 then port else ns_gossip st |} in
+      xok (withp s (set_dn_stat (set_core p (set_ptview c (map (fun e => (fst e, map (pt_offline id) (snd e))) (ptview c))))
+                                (stat_set (nd_tcp n) st' (dn_stat p))))
+  end.
+
+Definition x_sql_status (s : xstate) (id status ltime : Z) : xstate * bool :=
+  let p := pp s in
+  match find (fun x => sq_id x =? id) (sqls p) with
+  | None => xerr s
+  | Some x =>
+      if ltime <? sq_ltime x then xerr s else
+      xok (withp s (set_sqls p (upd_first (fun x => sq_id x =? id)
+            (fun x => {| sq_id := sq_id x; sq_host := sq_host x; sq_conn := sq_conn x; sq_index := sq_index x; sq_status := status; sq_ltime := ltime;
+                         sq_alive := if status =? ALIVE then sq_conn x else sq_alive x |}) (sqls p))))
+  end.
+
+Definition x_meta_status (s : xstate) (id status ltime : Z) : xstate * bool :=
+  let p := pp s in
+  match find (fun m => mn_id m =? id) (metas p) with
+  | None => xerr s
+  | Some m =>
+      if ltime <? mn_ltime m then xerr s else
+      xok (withp s (set_metas p (upd_first (fun m => mn_id m =? id)
+            (fun m => {| mn_id := mn_id m; mn_http := mn_http m; mn_tcp := mn_tcp m; mn_status := status; mn_ltime := ltime |}) (metas p))))
+  end.
+
+(* ---- tiers (Data.UpdateShardInfoTier / UpdateIndexInfoTier) ---- *)
+Definition x_shard_tier (s : xstate) (db rp id tier : Z) : xstate * bool :=
+  let p := pp s in
+  match get_pol (core p) db rp with
+  | None => xerr s
+  | Some q => if existsb (fun g => existsb (fun x => sh_id x =? id) (sg_shards g)) (rp_sgs q)
+              then xok (withp s (set_sh_tier p (assoc_set id tier (sh_tier p)))) else xerr s
+  end.
+Definition x_index_tier (s : xstate) (db rp id tier : Z) : xstate * bool :=
+  let p := pp s in
+  match get_pol (core p) db rp with
+  | None => xerr s
+  | Some q => if existsb (fun g => existsb (fun x => ix_id x =? id) (ig_indexes g)) (rp_igs q)
+              then xok (withp s (set_ix_tier p (assoc_set id tier (ix_tier p)))) else xerr s
+  end.
+
+(* a shard gets its tier when it appears: the tier of the CreateShardGroup command for the shards of a new group, the tier of the
+   shard before it for a shard added by an expansion (`Tier: sg.Shards[i-1].Tier`) *)
+Fixpoint complete_group (dflt prev : Z) (tbl : list (Z * Z)) (l : list shard) : list (Z * Z) :=
+  match l with
+  | [] => tbl
+  | x :: r => match assoc (sh_id x) tbl with
+              | Some t => complete_group dflt t tbl r
+              | None => complete_group dflt prev (tbl ++ [(sh_id x, prev)]) r
+              end
+  end.
+Definition complete_tiers (dflt : Z) (c : cat) (tbl : list (Z * Z)) : list (Z * Z) :=
+  fold_left (fun t g => complete_group dflt dflt t (sg_shards g)) (flat_map rp_sgs (pols c)) tbl.
+
+(* ---- streams (Data.SetStream / DropStream; the Mark* commands refuse while a stream refers to their object) ---- *)
+Definition triple_eqb (a b : Z * Z * Z) : bool := (fst (fst a) =? fst (fst b)) && (snd (fst a) =? snd (fst b)) && (snd a =? snd b).
+Definition stream_equal (a b : stream) : bool :=
+  (st_name a =? st_name b) && (st_interval a =? st_interval b) && triple_eqb (st_src a) (st_src b) && triple_eqb (st_dst a) (st_dst b).
+Definition x_create_stream (s : xstate) (n db rp src dst iv : Z) : xstate * bool :=
+  let p := pp s in
+  let info := {| st_name := n; st_id := max_stream p; st_src := (db, rp, src); st_dst := (db, rp, dst); st_interval := iv |} in
+  match find (fun x => st_name x =? n) (streams p) with
+  | Some old =>
+      if stream_equal old info
+      then xok (withp s (set_max_stream (set_streams p (upd_first (fun x => st_name x =? n) (fun _ => info) (streams p))) (max_stream p + 1)))
+      else xerr s
+  | None => xok (withp s (set_max_stream (set_streams p (streams p ++ [info])) (max_stream p + 1)))
+  end.
+Definition x_drop_stream (s : xstate) (n : Z) : xstate * bool :=
+  let p := pp s in
+  if existsb (fun x => st_name x =? n) (streams p)
+  then xok (withp s (set_streams p (filter (fun x => negb (st_name x =? n)) (streams p)))) else xerr s.
+
+Definition in_db (db : Z) (t : Z * Z * Z) : bool := fst (fst t) =? db.
+Definition in_rp (db rp : Z) (t : Z * Z * Z) : bool := (fst (fst t) =? db) && (snd (fst t) =? rp).
+Definition in_mst (db rp m : Z) (t : Z * Z * Z) : bool := (fst (fst t) =? db) && (snd (fst t) =? rp) && (snd t =? m).
+Definition stream_on (f : Z * Z * Z -> bool) (p : pstate) : bool := existsb (fun x => f (st_src x) || f (st_dst x)) (streams p).
+
 Definition QID_SPAN : Z := 100000000.
 Definition x_register_qid (s : xstate) (host : Z) : xstate * bool :=
   let p := pp s in
@@ -394,14 +540,41 @@ Definition x_register_qid (s : xstate) (host : Z) : xstate * bool :=
   | None => xok (withp s (set_qids p (qids p ++ [(host, Z.of_nat (length (qids p)) * QID_SPAN)])))
   end.
 
-(* ---- the catalogue commands: the core step function, then what the extension keeps per database / policy ---- *)
+(* ---- the catalogue commands: the core step function, then what the extension keeps per database / policy / node / shard ---- *)
 Definition gc_subs (p : pstate) : pstate :=
   set_subs p (filter (fun e => existsb (is_pol (fst (fst e)) (snd (fst e))) (pols (core p))) (subs p)).
+(* the per-node tables follow the data nodes (RemoveNode forgets a node; one that joins later on its address starts afresh) *)
+Definition gc_nodes (p : pstate) : pstate :=
+  let live k := existsb (fun n => nd_tcp n =? k) (nodes (core p)) in
+  set_dn_stat (set_dn_index_tbl p (filter (fun e => live (fst e)) (dn_index p))) (filter (fun e => live (fst e)) (dn_stat p)).
+Definition gc (cfg : config) (p : pstate) : pstate :=
+  let p1 := gc_nodes (gc_subs p) in set_sh_tier p1 (complete_tiers (cfg_sgtier cfg) (core p1) (sh_tier p1)).
+
+Definition node_alive (p : pstate) (id : Z) : bool :=
+  match find (fun n => nd_id n =? id) (nodes (core p)) with
+  | Some n => ns_status (stat_of (dn_stat p) (nd_tcp n)) =? ALIVE
+  | None => false
+  end.
+
+(* Data.SchemaClean marks through Data.MarkMeasurementDelete, which refuses while a stream refers to the measurement *)
+Definition ms_unmark (x : mst) : mst := {| ms_name := ms_name x; ms_ver := ms_ver x; ms_id := ms_id x; ms_mark := false |}.
+Definition protect_msts (p : pstate) (c_old c_new : cat) : cat :=
+  set_pols c_new (map (fun q =>
+    match find (is_pol (rp_db q) (rp_name q)) (pols c_old) with
+    | None => q
+    | Some q0 =>
+        pol_set_msts q (map (fun x =>
+          if ms_mark x && negb (existsb (fun y => (ms_id y =? ms_id x) && ms_mark y) (rp_msts q0)) &&
+             stream_on (in_mst (rp_db q) (rp_nm q) (ms_name x)) p
+          then ms_unmark x else x) (rp_msts q)) (rp_vers q)
+    end) (pols c_new)).
 
 Definition x_core (cstep : cat -> cmd -> cat * bool) (v : variant) (cfg : config) (s : xstate) (x : cmd) : xstate * bool :=
   let p := pp s in
+  let generic := let '(c1, r) := cstep (core p) x in (withp s (gc cfg (set_core p c1)), r) in
   match x with
-  | CreateNode h t => x_create_dnode v cfg s h t
+  | CreateNode h t =>
+      let '(s1, r) := x_create_dnode v cfg s h t in (withp s1 (gc cfg (pp s1)), r)
   | DropDb db =>
       (* storeFSM.applyDropDatabaseCommand: nothing at all for an unknown database *)
       match find_db (core p) db with
@@ -412,9 +585,22 @@ Definition x_core (cstep : cat -> cmd -> cat * bool) (v : variant) (cfg : config
           let p1 := set_core p c1 in
           let p2 := set_max_cqchg (set_cqs p1 (filter (fun c => negb (cq_db c =? db)) (cqs p1))) (if had then max_cqchg p1 + 1 else max_cqchg p1) in
           let p3 := set_users p2 (map (fun u => u_set_privs (filter (fun e => negb (fst e =? db)) (u_privs u)) u) (users p2)) in
-          (withp s (gc_subs p3), r)
+          (withp s (gc cfg p3), r)
       end
-  | _ => let '(c1, r) := cstep (core p) x in (withp s (gc_subs (set_core p c1)), r)
+  | MarkDb db => if stream_on (in_db db) p then xerr s else generic
+  | MarkRp db rp => if stream_on (in_rp db rp) p then xerr s else generic
+  | MarkMst db rp m => if stream_on (in_mst db rp m) p then xerr s else generic
+  | PruneSg _ =>
+      let '(c1, r) := cstep (core p) x in (withp s (gc cfg (set_core p (protect_msts p (core p) c1))), r)
+  | UpdatePt db pt co cs owner status =>
+      (* Data.UpdatePtInfo: a partition of a known node that is not alive is not set online; the core model knows no alive
+         node and refuses for every known node, so for an alive owner it is run without the node list *)
+      if (status =? 0) && node_alive p owner then
+        let c := core p in
+        let '(c1, r) := cstep (set_nodes c [] (max_node c) (max_conn c) (ptnum c) (ptview c)) x in
+        (withp s (gc cfg (set_core p (set_nodes c1 (nodes c) (max_node c1) (max_conn c1) (ptnum c1) (ptview c1)))), r)
+      else generic
+  | _ => generic
   end.
 
 (* storeFSM.executeCmd *)
@@ -441,7 +627,15 @@ Definition exec (cstep : cat -> cmd -> cat * bool) (pick : list Z -> option Z) (
   | MarkBalancer b => xok (withp s (set_balancer (pp s) b))
   | VerifyNode => xok s
   | RegisterQid host => x_register_qid s host
-  | ExpandGroups => xok (withp s (set_core (pp s) (cfg_expandf cfg (core (pp s)))))
+  | ExpandGroups => xok (withp s (gc cfg (set_core (pp s) (cfg_expandf cfg (core (pp s))))))
+  | UpdatePtVersion db pt => xok (fst (x_pt_version s db pt))      (* ApplyUpdatePtVersion drops the error *)
+  | NodeStatus id st lt port => x_node_status s id st lt port
+  | SqlStatus id st lt => x_sql_status s id st lt
+  | MetaStatus id st lt => x_meta_status s id st lt
+  | ShardTier db rp id tier => x_shard_tier s db rp id tier
+  | IndexTier db rp id tier => x_index_tier s db rp id tier
+  | CreateStream n db rp src dst iv => x_create_stream s n db rp src dst iv
+  | DropStream n => x_drop_stream s n
   end.
 
 (* storeFSM.Apply of the log entry (term, index, command): term and index are recorded whatever the outcome; after a
@@ -474,6 +668,7 @@ Definition persisted (v : variant) (p : pstate) : pstate :=
      max_cqchg := max_cqchg p; metas := metas p; cluster_id := cluster_id p;
      sqls := if v_idxfix v then sqls p else map (sq_set_index 0) (sqls p);
      dn_index := if v_idxfix v then dn_index p else [];
+     dn_stat := dn_stat p; sh_tier := sh_tier p; ix_tier := ix_tier p; streams := streams p; max_stream := max_stream p;
      takeover := takeover p; balancer := balancer p; qids := qids p; p_term := p_term p; p_index := p_index p |}.
 
 (* the restored replica: a fresh Data filled by Unmarshal - transient fields take their zero value, except the two that
